@@ -1,7 +1,10 @@
 //! One module per property.
 use crate::engine::{CaseFn, Run};
 
+pub mod c01;
+pub mod c10;
 pub mod c15;
+pub mod selftest;
 
 pub struct PropDef {
     pub id: &'static str,
@@ -14,7 +17,7 @@ pub struct PropDef {
 }
 
 pub fn all() -> Vec<PropDef> {
-    vec![c15::def()]
+    vec![c01::def_c01(), c01::def_c02(), c01::def_c03(), c10::def(), c15::def(), selftest::def_overflow(), selftest::def_spin()]
 }
 pub fn find(id: &str) -> Option<PropDef> {
     all().into_iter().find(|d| d.id == id)
